@@ -22,6 +22,7 @@ import (
 	"runtime/debug"
 	"strings"
 	"sync"
+	"sync/atomic"
 	"syscall"
 	"testing"
 	"time"
@@ -46,11 +47,14 @@ func TestMain(m *testing.M) {
 
 const (
 	workerName = "c04"
-	// A case is expected to take well under 50 ms. The worker gives up on a case after cpuBudget of
-	// process CPU time (not wall time: ten builders share the machine and a starved worker is not
-	// a wedged parser); the parent's wall-clock watchdog is only the backstop for a worker that
-	// neither answers nor burns CPU.
-	cpuBudget = 20 * time.Second
+	// "The parser stopped making progress" is judged per call into otto, not per case: a single
+	// ParseFile / Run / Compile call (expected: milliseconds; the slowest terminating input of the
+	// generators, 10^4 nested brackets with 2x10^4 errors, needs about 0.5 s because otto computes
+	// every error position in O(offset)) may use callBudget of process CPU time (not wall time: ten
+	// builders share the machine and a starved worker is not a wedged parser). The harness's own
+	// work on a case (token alignment, reflection, position tables) is not budgeted; the parent's
+	// wall-clock watchdog is only the backstop for a worker that neither answers nor burns CPU.
+	callBudget = 40 * time.Second
 	watchdog  = 5 * time.Minute
 )
 
@@ -66,7 +70,7 @@ type wresp struct {
 	Classes    []string `json:"classes,omitempty"`
 	Excluded   []string `json:"excluded,omitempty"`
 	Discard    string   `json:"discard,omitempty"`
-	Timeout    bool     `json:"timeout,omitempty"` // the case exhausted cpuBudget; the worker exits after answering
+	Timeout    bool     `json:"timeout,omitempty"` // one otto call exhausted callBudget; the worker exits after answering
 }
 
 var (
@@ -119,7 +123,6 @@ func serve(raw json.RawMessage) json.RawMessage {
 		}
 		done := make(chan harness.Outcome, 1)
 		go func() { done <- fn(rq.Case) }()
-		start := cpuTime()
 		tick := time.NewTicker(20 * time.Millisecond)
 		defer tick.Stop()
 	wait:
@@ -129,8 +132,8 @@ func serve(raw json.RawMessage) json.RawMessage {
 				out = wresp{Fail: o.Fail, Nontrivial: o.Nontrivial, Classes: o.Classes, Excluded: o.Excluded, Discard: o.Discard}
 				break wait
 			case <-tick.C:
-				if used := cpuTime() - start; used > cpuBudget {
-					out = wresp{Timeout: true, Fail: fmt.Sprintf("the case consumed %v of CPU time without finishing (expected < 50 ms): the parser stopped making progress", used.Round(time.Second))}
+				if begun := callBegan.Load(); begun != 0 && cpuTime()-time.Duration(begun) > callBudget {
+					out = wresp{Timeout: true, Fail: fmt.Sprintf("one call of %s consumed more than %v of CPU time without returning (the slowest terminating input needs about 0.5 s): the parser stopped making progress", callName.Load(), callBudget)}
 					// the goroutine cannot be stopped: leave once the answer is on its way
 					go func() { time.Sleep(500 * time.Millisecond); os.Exit(5) }()
 					break wait
@@ -140,6 +143,19 @@ func serve(raw json.RawMessage) json.RawMessage {
 	}
 	b, _ := json.Marshal(out)
 	return b
+}
+
+// callBegan is the process CPU time at which the otto call in flight was entered (0: none).
+var (
+	callBegan atomic.Int64
+	callName  atomic.Value
+)
+
+// inOtto brackets one call into otto for the per-call CPU budget.
+func inOtto(name string) func() {
+	callName.Store(name)
+	callBegan.Store(int64(cpuTime()) | 1)
+	return func() { callBegan.Store(0) }
 }
 
 // cpuTime is the CPU time (user + system) this process has consumed.
@@ -275,6 +291,7 @@ func parse(src string, mode parser.Mode) (r parsed) {
 			r.frames = panicSite(string(debug.Stack()))
 		}
 	}()
+	defer inOtto("parser.ParseFile")()
 	r.prog, r.err = parser.ParseFile(nil, "", src, mode)
 	return r
 }
@@ -431,6 +448,7 @@ func checkErrors(src string, err error) string {
 	if len(list) == 0 {
 		return "ParseFile returned an empty ErrorList as error; src=" + show(src)
 	}
+	lens := m04.Lines(src)
 	for i, e := range list {
 		if e == nil {
 			return fmt.Sprintf("ErrorList[%d] is nil; src=%s", i, show(src))
@@ -438,7 +456,7 @@ func checkErrors(src string, err error) string {
 		if e.Message == "" {
 			return fmt.Sprintf("ErrorList[%d] has an empty message; src=%s", i, show(src))
 		}
-		if bad := m04.CheckPosition(src, e.Position.Line, e.Position.Column); bad != "" {
+		if bad := m04.CheckPositionIn(lens, e.Position.Line, e.Position.Column); bad != "" {
 			return fmt.Sprintf("ErrorList[%d] %q is reported at %d:%d, which is outside the input: %s; src=%s", i, e.Message, e.Position.Line, e.Position.Column, bad, show(src))
 		}
 	}
@@ -811,7 +829,7 @@ func checkBytesLocal(c bytesCase) harness.Outcome {
 
 var bytesFacet = harness.Register(&harness.Facet[bytesCase]{
 	Name: "bytes",
-	Rule: "rapid: one of raw bytes (0-96) | 1-40 fragments of a JS alphabet (keywords, every punctuator, literal pieces, comment openers, escapes, every line terminator and ES5 white space, NUL, invalid / truncated UTF-8, encoded surrogates, sourceMappingURL trailers) | a rendered valid program (random trivia) cut to a random prefix / suffix / infix (also inside a multi-byte character) | the same with 1-3 byte replacements / deletions / insertions | an opener repeated 2..10^4 times (at most 16 KB per repeated piece) + middle + closer repeated d / d-1 / d+1 / 0 times (42 openers: brackets, unary and binary operators, every statement head, function literals, accessors, comments, strings); parser mode 0 or StoreComments; checked: no panic, the process survives (worker subprocess; a case may use 20 s of CPU time), error => non-empty ErrorList with non-empty messages and positions inside the text (1-based line, 1-based column counted in characters, the unit file.Position documents), accepted => spans and walker as in facet trees; non-trivial = at least 4 non-blank bytes; distinct by JSON of the case",
+	Rule: "rapid: one of raw bytes (0-96) | 1-40 fragments of a JS alphabet (keywords, every punctuator, literal pieces, comment openers, escapes, every line terminator and ES5 white space, NUL, invalid / truncated UTF-8, encoded surrogates, sourceMappingURL trailers) | a rendered valid program (random trivia) cut to a random prefix / suffix / infix (also inside a multi-byte character) | the same with 1-3 byte replacements / deletions / insertions | an opener repeated 2..10^4 times (at most 16 KB per repeated piece) + middle + closer repeated d / d-1 / d+1 / 0 times (42 openers: brackets, unary and binary operators, every statement head, function literals, accessors, comments, strings); parser mode 0 or StoreComments; checked: no panic, the process survives (worker subprocess; one ParseFile call may use 40 s of CPU time), error => non-empty ErrorList with non-empty messages and positions inside the text (1-based line, 1-based column counted in characters, the unit file.Position documents), accepted => spans and walker as in facet trees; non-trivial = at least 4 non-blank bytes; distinct by JSON of the case",
 	Quick: 5000, Thorough: 16000,
 	Gen:   genBytes,
 	Check: remote("bytes", checkBytesLocal),
